@@ -17,6 +17,7 @@ import (
 	"os"
 	"sort"
 	"strconv"
+	"strings"
 	"testing"
 	"time"
 
@@ -232,6 +233,9 @@ func classOf(note string) string {
 	}
 	if note == "" {
 		return "?"
+	}
+	if i := strings.IndexByte(note, '@'); i >= 0 {
+		note = note[:i]
 	}
 	return note
 }
